@@ -219,7 +219,12 @@ def r2_sites(prog, rep: Report, ss: Cls, rule: str = "C10.R2", floor: int = 3):
                   f"argument roles of `{src(c)}` are not (probe start, probe end, stored start, stored end at one index)",
                   scenario="with an asymmetric relation (PartOf/Includes) `x in S` answers the converse question; or start "
                            "and end of different stored spans are combined", line=c.lineno)
-        rep.check(rule, f, "contains:scan", _existential_scan(f, c),
+        scan_ = _existential_scan(f, c)
+        if scan_ is None:
+            rep.unrec(rule, f, "contains:scan", "__contains__ is not written as one of the read forms of an existential scan (return True in "
+                      "the match test / any(...) / a found flag set with break)")
+        else:
+          rep.check(rule, f, "contains:scan", scan_,
                   "returns True on the first match over all stored spans and False after the scan",
                   "__contains__ is not an existential scan (True inside the match test over all stored spans, False after it)",
                   scenario="a span related only to the last stored span is reported absent (scan ends early), or an empty set "
@@ -297,7 +302,29 @@ def _existential_scan(f: Func, call: ast.Call) -> bool:
         if isinstance(v, ast.Call) and src(v.func) == "any" and len(v.args) == 1 and isinstance(v.args[0], ast.GeneratorExp):
             g = v.args[0]
             return g.elt is call and len(g.generators) == 1 and not g.generators[0].ifs and "self.starts" in src(g.generators[0].iter)
-    return False
+    # form 3 (the flag spelling): found = False; for ...: if call: found = True; break;  return found
+    if len(body) == 3 and isinstance(body[0], ast.Assign) and len(body[0].targets) == 1 and isinstance(body[0].targets[0], ast.Name) \
+            and const_value(body[0].value) is False and isinstance(body[1], ast.For) and not body[1].orelse \
+            and isinstance(body[2], ast.Return) and isinstance(body[2].value, ast.Name) and body[2].value.id == body[0].targets[0].id:
+        flag, loop = body[0].targets[0].id, body[1]
+        if len(loop.body) == 1 and isinstance(loop.body[0], ast.If) and loop.body[0].test is call and not loop.body[0].orelse \
+                and len(loop.body[0].body) == 2 and isinstance(loop.body[0].body[0], ast.Assign) \
+                and isinstance(loop.body[0].body[0].targets[0], ast.Name) and loop.body[0].body[0].targets[0].id == flag \
+                and const_value(loop.body[0].body[0].value) is True and isinstance(loop.body[0].body[1], ast.Break) \
+                and sum(1 for n in ast.walk(f.node) if isinstance(n, ast.Name) and n.id == flag) == 3:
+            it = loop.iter
+            return "self.starts" in src(it) and "[" not in src(it)
+    # positively wrong: the scan is ended by a mismatch (`return False` / `break` on the else side inside the loop), or the
+    # function answers True after the loop; any other spelling is not read
+    loops = [n for n in walk_own(f.node) if isinstance(n, (ast.For, ast.While))]
+    for lp in loops:
+        for n in ast.walk(lp):
+            if isinstance(n, ast.Return) and const_value(n.value, None) is False:
+                return False
+    last = body[-1] if body else None
+    if isinstance(last, ast.Return) and const_value(last.value, None) is True and loops:
+        return False
+    return None
 
 
 def _enclosing_for(n, level: int):
